@@ -81,7 +81,37 @@ def gen_script(rng, kind=None, raise_p=0.02):
         else:
             ops.append(["stop"])
     return {"op": "vts_script", "sched": kind, "clock": c0, "bump": 1000 if kind == "hist" else 1, "ops": ops,
-            "handler_true": [], "handler_default": False}
+            "handler_true": [], "handler_default": False,
+            "tz_offset_min": rng.choice([None, 120, -300, 330, 60]) if kind == "hist" else None}
+
+
+def gen_long_run(rng, kind=None):
+    """long runs (150..400 actions) under start(), mostly on the datetime clock: stretches of actions at distinct increasing times,
+    bursts of 2 / 60 / 102 / 130 actions at one instant, bursts made OVERDUE by a sleep() that moves the clock past them first"""
+    kind = kind or rng.choice(["hist", "hist", "hist", "test", "vts"])
+    unit = 500 if kind == "hist" else 1
+    c0 = unit * rng.choice([0, 0, 40])
+    ops, nid, t = [], 1, c0
+    target = rng.randrange(150, 400)
+    while nid <= target:
+        r = rng.random()
+        if r < 0.45:      # a stretch of distinct times (the clock advances at every item)
+            for _ in range(rng.choice([5, 40, 110, 130])):
+                t += unit * rng.choice([1, 1, 2, 3])
+                ops.append(["sched", False, "abs", t, {"id": nid, "steps": [], "raise": None}])
+                nid += 1
+        else:             # a burst at one instant (sometimes the instant of the previous item)
+            if rng.random() < 0.7:
+                t += unit * rng.choice([1, 4])
+            for _ in range(rng.choice([2, 2, 3, 60, 102, 130])):
+                ops.append(["sched", False, "abs", t, {"id": nid, "steps": [], "raise": None}])
+                nid += 1
+    if rng.random() < 0.5:   # everything up to somewhere in the middle becomes overdue
+        ops.append(["sleep", (t - c0) // 2 + unit * rng.choice([0, 1, 7])])
+    ops.append(["start"])
+    return {"op": "vts_script", "sched": kind, "clock": c0, "bump": 1000 if kind == "hist" else 1, "ops": ops,
+            "handler_true": [], "handler_default": False,
+            "tz_offset_min": rng.choice([None, 120, -300]) if kind == "hist" else None}
 
 
 def gen_multi_start(rng, kind=None):
@@ -155,6 +185,8 @@ def cases(rng, tier):
         yield gen_pq(rng)
     for _ in range(fw.tier_scale(tier, 90, 900)):
         yield gen_multi_start(rng)
+    for _ in range(fw.tier_scale(tier, 80, 800)):
+        yield gen_long_run(rng)
 
 
 def model_request(case):
@@ -276,6 +308,9 @@ def oracle(case, out):
         k = ev[0]
         if k == "op":
             _, i, name, arg, c, en = ev
+            if clock is None and c != case["clock"]:
+                return (f"the scheduler was created with initial clock {case['clock']} (HistoricalScheduler: an aware datetime in zone offset "
+                        f"{case.get('tz_offset_min')} min) but its clock reads {c} before the first call")
             if clock is not None and c < clock:
                 return f"clock moved backwards: {clock} -> {c} before call {i}"
             clock = c
